@@ -22,7 +22,7 @@ func init() {
 		Assumptions: []string{"no RPC/DB faults are injected here (C15 covers them); the canonical chain is fixed while one Sync call runs"},
 		Real:        []string{"shutterservice.MultiEventSyncer", "EventTriggerRegisteredEventProcessor", "TriggerProcessor", "EventTriggerDefinition (decode, filter query, Match)", "ethclient + abigen", "sqlc/pgx"},
 		Stub:        []string{"Ethereum node (simeth)", "PostgreSQL (pgsim)"},
-		QuickRuns:   300, ThoroughRuns: 30000, QuickMinimize: 60, ThoroughMinimize: 300,
+		QuickRuns:   1500, ThoroughRuns: 30000, QuickMinimize: 60, ThoroughMinimize: 300,
 	})
 }
 
